@@ -78,11 +78,14 @@ POOL = [
     {"text": "12.12.2022 to 14.12.2022 for 2 days", "ts": TS1, "kw": {}},
     {"text": "12.12.2022 to 14.12.2022 for 2 days", "ts": TS1, "kw": {"scorer": "nb"}},
     {"text": "9-5:30", "ts": TS1, "kw": {}},
+    # the same words in another letter case (a memo keyed by the lower-cased text would hand back the other call's matches: subject words keep their case)
+    {"text": "zzq tomorrow at 5pm xqz #w", "ts": TS1, "kw": {}},
+    {"text": "zzq Tomorrow at 5PM xqz #W", "ts": TS1, "kw": {}},
 ]
 TS_COMPONENT = [23, 24, 25]
 SHIFT_PAIRS = [(13, 14), (15, 16), (17, 18), (19, 20), (21, 22)]
 FAIL = 7
-CALLABLE = list(range(13)) + [13, 14, 23, 24, 25, 27, 28, 29, 30, 31]  # history alphabet (the offset-shift pairs beyond #14 are exercised by the stream merges)
+CALLABLE = list(range(13)) + [13, 14, 23, 24, 25, 27, 28, 29, 30, 31, 32, 33]  # history alphabet (the offset-shift pairs beyond #14 are exercised by the stream merges)
 OPENABLE = [0, 3, 5, 9, 10, 13]
 MERGE_POOL = [0, 1, 3, 4, 5, 8, 9, 10, 11, 12]
 SCHED_PAIRS_QUICK = [(9, 6, "one", "one"), (9, 9, "gen", "one")]
@@ -268,6 +271,20 @@ def plan(tier, seed):
     else:
         hist = _histories(depth)
     lens = [len(g) if isinstance(g, list) and (not g or g[0] != "exc") else 0 for g in REF["gen"]]
+    # three-party histories: a stream is opened and stepped, one call completes (or fails), ANOTHER call completes, then the stream is drained
+    # (state handed from the first call to the second while the stream still uses it); depth 5+ in operations, enumerated as a directed family
+    three = []
+    for A in (OPENABLE + [1] if tier == "quick" else sorted(set(OPENABLE + MERGE_POOL))):
+        for k in (1, 2):
+            if k > lens[A]:
+                continue
+            for B in (5, 9, FAIL):
+                for C in CALLABLE:
+                    if C == FAIL:
+                        continue
+                    ops = [("OPEN", A)] + [("STEP", 0)] * k + [("FAIL" if B == FAIL else "CALL", B), ("CALL", C)] + [("STEP", 0)] * (lens[A] + 1 - k)
+                    three.append(tuple(ops))
+    hist = list(dict.fromkeys(hist + three))
     merge_cap = 5 if tier == "quick" else 7
     merges = []
     for a, b in [(x, y) for x in MERGE_POOL for y in MERGE_POOL] + SHIFT_PAIRS + [(y, x) for x, y in SHIFT_PAIRS]:
@@ -310,6 +327,7 @@ def plan(tier, seed):
         "hash_seeds": seeds,
         "history_depth": depth,
         "histories": len(hist),
+        "three_party_histories": len(three),
         "stream_lengths": lens,
         "merges": len(merges),
         "schedule_pairs": [list(p) for p in pairs],
